@@ -76,6 +76,12 @@ def cases(tier):
                         if (isinstance(mr, list) and fam in ('gauss', 'ties')) or mr in (1, 2):
                             for mrt in (('np64',) if isinstance(mr, list) else ('np64', 'np32')):
                                 yield {'ep': ep, 'sites': sites, 'fam': fam, 'c': c, 'thr': 0, 'mr': mr, 'mrt': mrt}
+                # one-sided sweeps over an over-parameterised train (a sum of two trains: bond ranks above what the sizes to the
+                # left / right admit) with a cap that is not binding for any bond of the train: nothing may be cut
+                if fam in ('gauss', 'ties', 'lowrank') and sites not in deep_only:
+                    for ep in ('right_raw_over', 'left_raw_over'):
+                        for mr in ('maxrank', 'maxrank+1', 'maxrank-list'):
+                            yield {'ep': ep, 'sites': sites, 'fam': fam, 'c': c, 'thr': 0, 'mr': mr}
 
 
 def make_tensor(case, rng):
@@ -160,10 +166,65 @@ def run_tsvd(case, seed):
     return r
 
 
+def run_over(case, seed):
+    """ortho_right / ortho_left with a rank cap >= every bond rank of an over-parameterised train: the tensor is unchanged"""
+    from scikit_tt.tensor_train import TT
+    r = R(case)
+    rng = rng_for({k: case[k] for k in ('sites', 'fam', 'c')}, seed)
+    x = make_tensor(case, rng)
+    sites = case['sites']; d = len(sites)
+    x2 = 0.5 * make_tensor(dict(case, fam='gauss'), rng)
+    base = [cc.copy() for cc in TT(np.array(x)).cores]
+    base2 = [cc.copy() for cc in TT(np.array(x2)).cores]
+    x = x + x2
+    # a + b as block cores (bond ranks add up, beyond what the mode sizes admit), then a generic change of gauge on every bond
+    cores = []
+    for i, (cc, c2) in enumerate(zip(base, base2)):
+        rl, m_, n_, rr = cc.shape
+        rl2, _, _, rr2 = c2.shape
+        if d == 1:
+            cores.append(cc + c2); continue
+        if i == 0:
+            cores.append(np.concatenate([cc, c2], axis=3))
+        elif i == d - 1:
+            cores.append(np.concatenate([cc, c2], axis=0))
+        else:
+            blk = np.zeros((rl + rl2, m_, n_, rr + rr2), dtype=np.result_type(cc, c2))
+            blk[:rl, :, :, :rr] = cc; blk[rl:, :, :, rr:] = c2
+            cores.append(blk)
+    for i in range(d - 1):
+        k = cores[i].shape[3]
+        G = rng.standard_normal((k, k)) + 3 * np.eye(k)
+        cores[i] = np.tensordot(cores[i], G, axes=(3, 0))
+        cores[i + 1] = np.tensordot(np.linalg.inv(G), cores[i + 1], axes=(1, 0))
+    T = tt_from(cores)
+    top = max(T.ranks)
+    mr = {'maxrank': top, 'maxrank+1': top + 1, 'maxrank-list': list(T.ranks)}[case['mr']]
+    mr_given = list(mr) if isinstance(mr, list) else mr
+    sizes = [s_[0] * s_[1] for s_ in sites]
+    r.nontrivial = any(T.ranks[k] > min(int(np.prod(sizes[:k])), int(np.prod(sizes[k:]))) for k in range(1, d))
+    key = 'trunc:' + case['ep']
+    nx = np.linalg.norm(x.ravel())
+    with r.op(key + ':call'):
+        if case['ep'] == 'right_raw_over':
+            T.ortho_right(max_rank=mr)
+        else:
+            T.ortho_left(max_rank=mr)
+        mp = meta_problem(T)
+        if r.true(key + ':meta', mp is None, mp):
+            r.true(key + ':rank-cap', all(a <= top + 1 for a in T.ranks), 'ranks %s' % T.ranks)
+            r.le(key + ':non-binding-cap-exact', np.linalg.norm((dn(T) - x).ravel()), 0.0, 1e-10 * max(1.0, nx), 'ranks %s cap %s' % (T.ranks, mr_given))
+            r.true(key + ':cap-list-unchanged', mr == mr_given)
+    r.outcome = 'over-exact'
+    return r
+
+
 def run_case(case, seed):
     from scikit_tt.tensor_train import TT
     if case['ep'] == 'tsvd':
         return run_tsvd(case, seed)
+    if case['ep'].endswith('_over'):
+        return run_over(case, seed)
     r = R(case)
     rng = rng_for({k: case[k] for k in ('sites', 'fam', 'c')}, seed)   # same tensor for all settings of a layout
     x = make_tensor(case, rng)
